@@ -261,6 +261,20 @@ func (x *Exec) eval(env *Env, e Expr) (Value, types.Type) {
 		if e.Op == "!" {
 			return mkNot(v.(*Term)), t
 		}
+		if e.Op == "*" {
+			pt, ok := t.Underlying().(*types.Pointer)
+			if !ok {
+				panic("contract: * applied to a non-pointer")
+			}
+			var p *PtrV
+			switch pv := v.(type) {
+			case *PtrV:
+				p = pv
+			case *Term:
+				p = &PtrV{Kind: PRef, Ref: pv, Elem: pt.Elem()}
+			}
+			return x.load(env.st, env.mem, p), pt.Elem()
+		}
 		return mkSub(mkInt(0), v.(*Term)), t
 	case *EBinary:
 		return x.evalBinary(env, e)
@@ -795,12 +809,13 @@ func (x *Exec) recSpecAxioms() []*Term {
 		env.mem = bm
 		for _, p := range f.Params {
 			t := env.resolveType(p.Type)
-			bv := mkVar(p.Name+"!r", scalarSort(t))
-			bound = append(bound, bv)
-			var val Value = bv
-			if pt, ok := t.Underlying().(*types.Pointer); ok {
-				val = &PtrV{Kind: PRef, Ref: bv, Elem: pt.Elem()}
+			var ts []*Term
+			for i, c := range comps(t) {
+				bv := mkVar(fmt.Sprintf("%s!r%d", p.Name, i), c.Sort)
+				bound = append(bound, bv)
+				ts = append(ts, bv)
 			}
+			val, _ := x.rebuild(t, ts)
 			env.bind(p.Name, val, t)
 			args = append(args, &EIdent{p.Name})
 		}
